@@ -161,8 +161,42 @@ def run_job(job, acc):
     _, s, n, nvar = job
     r = random.Random(s)
     for i in range(n):
-        stmts = c02.random_grammar(r)
+        stmts = repeated_references_grammar(r) if i % 4 == 3 else c02.random_grammar(r)
         compare(acc, stmts, r, nvar, 'seed=%d #%d' % (s, i))
+
+
+def repeated_references_grammar(r):
+    """The same definition referenced several times in one alternative (directly and through an alias), next to
+    other definitions: anything that orders or de-duplicates branches by where their definitions stand in the file
+    shows when the definitions are permuted."""
+    from ..gast import lit, nt, seq, alt, fb, opt, many, call, defn
+    names = r.sample(['A', 'B', 'C', 'INSTALL', 'REMOVE', 'ADD', 'Q9', 'zed'], r.randint(2, 4))
+    defs = []
+    for i, nm in enumerate(names):
+        body = r.choice([seq(lit('w%d' % i), lit('x%d' % i)), alt(lit('p%d' % i), lit('q%d' % i)),
+                         seq(lit('k%d' % i), opt(lit('z%d' % i))), lit('only%d' % i)])
+        defs.append(defn(nm, None, body))
+    alias = None
+    if r.random() < 0.5:
+        alias = 'ALIAS'
+        defs.append(defn(alias, None, nt(names[0])))
+    refs = [nt(n) for n in names] + [nt(r.choice(names)) for _ in range(r.randint(1, 3))]
+    if alias:
+        refs.append(nt(alias))
+    r.shuffle(refs)
+    e = alt(*refs) if r.random() < 0.7 else fb(alt(*refs[:len(refs) // 2 + 1]), alt(*refs[len(refs) // 2 + 1:] + [lit('last')]))
+    k = r.random()
+    if k < 0.3:
+        e = seq(e, lit('tail'))
+    elif k < 0.5:
+        e = seq(lit('head'), opt(e))
+    elif k < 0.6:
+        e = many(e)
+    stmts = [call('cmd', e)] + defs
+    if r.random() < 0.3:
+        stmts.append(call('cmd', seq(lit('second'), alt(nt(names[-1]), nt(names[0]), nt(names[-1])))))
+    r.shuffle(stmts)
+    return stmts
 
 
 def replay(w, acc):
